@@ -1,8 +1,8 @@
 SPECIFICATION SSpec
 CONSTANTS
-  N = 2
-  DomOnly = FALSE
-  MaxEntry = 3
+  N = 4
+  DomOnly = TRUE
+  MaxEntry = 2
 INVARIANT DominantRecovered
 INVARIANT PermutationUnlessZero
 INVARIANT Progress
